@@ -577,7 +577,7 @@ def execute(case):
                       "connq": bool(getattr(c, "_connect_queued", True)),
                       "q": [(conn.by_dict[id(p)]["seq"] if id(p) in conn.by_dict else -1, p["pos"], p["to_process"]) for p in c._out_packet]}
                 if ws and c._sock is not None:
-                    st["ws"] = (len(c._sock._sendbuffer), c._sock._requested_size, proxy.used - conn.key_base)
+                    st["ws"] = (len(c._sock._sendbuffer), c._sock._requested_size, proxy.used - conn.key_base, int(bool(getattr(c._sock, "_data_pending", len(c._sock._sendbuffer) > 0))))
                 conn.mobs[-1]["state"] = st
                 conn.mobs[-1]["rc"] = ("raised" if raised else (int(rc) if rc is not None and op["op"] in ("pub", "sub", "ping", "write", "disconnect") else None))
                 conn.mobs[-1]["disconnecting"] = c._state in (mqtt._ConnectionState.MQTT_CS_DISCONNECTING, mqtt._ConnectionState.MQTT_CS_DISCONNECTED)
@@ -649,8 +649,8 @@ def parse_model(out, ws):
             i += 3 * nq
             st = {"sock": bool(sock), "regw": bool(regw), "want": bool(want), "connq": bool(connq), "q": q}
             if ws:
-                st["ws"] = tuple(out[i:i + 3])
-                i += 3
+                st["ws"] = tuple(out[i:i + 4])
+                i += 4
             ops.append({"events": ev, "rc": rc, "state": st})
             ev = []
         else:
@@ -1043,6 +1043,7 @@ def run(ctx, out):
         before = len(out.violations)
         run_cases([d["case"]], out, tag="corpus")
         out.sample({"corpus": fn, "holds": len(out.violations) == before})
+    ws_control_oracle(out)
     pool = multiprocessing.get_context("fork").Pool(WORKERS) if WORKERS > 1 else None
     try:
         # 2. exhaustive small scope
@@ -1111,6 +1112,104 @@ def run(ctx, out):
             exp += [len(rest)] + list(rest)
             if r_ != exp:
                 out.disagreements.append({"what": "python deframe differs from the extracted deframe", "wire": list(w)[:200]})
+
+
+def ws_control_oracle(out):
+    """F-C06c/d (repaired by 9acff76): the replies to WebSocket PING / CLOSE frames were written straight to the raw socket -
+    into the middle of a data frame that was only partly flushed - and unmasked.  Inbound control frames are not part of the
+    writer model, so these histories run on the real `_WebsocketWrapper` only and are judged directly: the raw byte stream
+    must be a sequence of whole, masked, minimal-length frames; the binary frames carry exactly the offered packets, each
+    once, in order, each reported written only when its frame has been accepted completely; the control frames are the
+    replies, in order of arrival (exploration, not proof)."""
+    class NoHs(mqtt._WebsocketWrapper):
+        def _do_handshake(self, extra_headers):
+            self.connected = True
+
+    def frames_of(raw):
+        fr, i = [], 0
+        while True:
+            if len(raw) - i < 2:
+                break
+            b0, b1 = raw[i], raw[i + 1]
+            l7, masked = b1 & 127, b1 >> 7
+            j = i + 2
+            ext = 2 if l7 == 126 else 8 if l7 == 127 else 0
+            if len(raw) - j < ext:
+                break
+            plen = int.from_bytes(raw[j:j + ext], "big") if ext else l7
+            j += ext
+            if len(raw) - j < (4 if masked else 0):
+                break
+            key = bytes(raw[j:j + 4]) if masked else b""
+            j += 4 if masked else 0
+            if len(raw) - j < plen:
+                break
+            body = bytes(raw[j:j + plen])
+            if masked:
+                body = bytes(b ^ key[t & 3] for t, b in enumerate(body))
+            minimal = (l7 < 126) or (l7 == 126 and 126 <= plen < 65536) or (l7 == 127 and plen >= 65536)
+            fr.append({"fin": b0 >> 7, "rsv": (b0 >> 4) & 7, "op": b0 & 15, "masked": masked, "minimal": minimal, "payload": body})
+            i = j + plen
+        return fr, bytes(raw[i:])
+
+    pkts = [bytes([0x30, 8, 0, 1, ord("t")]) + b"hello", bytes([0x30, 130, 1]) + bytes(130), bytes([0xC0, 0])]
+    for pk in pkts:
+        flen = len(pk) + 6 + (2 if len(pk) >= 126 else 0)
+        for k in sorted(set([0, 1, 2, 5, 6, 7, flen - 1, flen])):                 # how much of the data frame the raw socket takes first
+            for ctl in ("ping", "close", "ping-ping", "ping-blocked"):
+                raw = impl.FakeSock()
+                ws = NoHs(raw, "h", 1883, False, "/mqtt", None)
+                reported = []
+                if k == 0:
+                    raw.send_plan.append(0)
+                elif k < flen:
+                    raw.send_plan.append(k)
+                try:
+                    reported.append(ws.send(pk))
+                except BlockingIOError:
+                    reported.append(0)
+                expected_ctl = []
+                for n, c in enumerate(ctl.split("-")):
+                    if c == "blocked":
+                        continue
+                    op, payload = (0x9, b"ab") if c == "ping" else (0x8, b"\x03\xe8")
+                    if ctl == "ping-blocked":
+                        raw.send_plan.append(0)                                   # the raw socket refuses the reply for now
+                    raw.feed(bytes([0x80 | op, len(payload)]) + payload)
+                    expected_ctl.append((0xA if op == 0x9 else 0x8, payload))
+                    for _ in range(4):
+                        try:
+                            ws.recv(1)
+                        except BlockingIOError:
+                            pass
+                for _ in range(3):                                                # the client offers the packet again until it is written
+                    if reported and reported[-1] > 0:
+                        break
+                    try:
+                        reported.append(ws.send(pk))
+                    except BlockingIOError:
+                        reported.append(0)
+                try:
+                    reported.append(ws.send(pkts[2]))                             # and the next packet
+                except BlockingIOError:
+                    reported.append(0)
+                fr, rest = frames_of(bytes(raw.wire))
+                data = [f["payload"] for f in fr if f["op"] == 2]
+                ctls = [(f["op"], f["payload"]) for f in fr if f["op"] != 2]
+                wf = all(f["fin"] == 1 and f["rsv"] == 0 and f["masked"] == 1 and f["minimal"] for f in fr)
+                want_data = [pk] + ([pkts[2]] if reported[-1] > 0 else [])
+                ok = (wf and rest == b"" and len(ws._sendbuffer) == 0 and data == want_data and ctls == expected_ctl
+                      and [r for r in reported if r > 0] == [len(pk)] + ([len(pkts[2])] if reported[-1] > 0 else []))
+                out.cases += 1
+                out.validated += 1
+                out.stat("ws_control_frame_scenarios")
+                if not ok:
+                    out.violations.append({"signature": "C06-ws-control-frame",
+                                           "what": f"WebSocket {ctl} while {k} of {flen} bytes of a data frame were flushed: raw stream frames "
+                                                   f"{[(f['op'], f['masked'], len(f['payload'])) for f in fr]} rest {len(rest)} bytes, buffered {len(ws._sendbuffer)}, "
+                                                   f"data payloads intact: {data == want_data}, control replies {ctls} (expected {expected_ctl}), "
+                                                   f"all frames whole/masked/minimal: {wf}, reported written: {reported}",
+                                           "case": {"packet_len": len(pk), "accepted_first": k, "control": ctl}})
 
 
 def shrink(case, sig, budget=400):
